@@ -148,7 +148,10 @@ func headerMutations() []mutation {
 			}
 			return true
 		}},
-		{"apphash-append", func(st *step, b *types.Block) bool { b.AppHash = append(append([]byte{}, b.AppHash...), 0); return true }},
+		{"apphash-append", func(st *step, b *types.Block) bool {
+			b.AppHash = append(append([]byte{}, b.AppHash...), 0)
+			return true
+		}},
 		{"apphash-empty", func(st *step, b *types.Block) bool {
 			if len(b.AppHash) == 0 {
 				return false
@@ -171,7 +174,10 @@ func headerMutations() []mutation {
 			b.LastResultsHash = nil
 			return true
 		}},
-		{"valhash-flip", func(st *step, b *types.Block) bool { b.ValidatorsHash = flip(b.ValidatorsHash, st.r.IntN(256)); return true }},
+		{"valhash-flip", func(st *step, b *types.Block) bool {
+			b.ValidatorsHash = flip(b.ValidatorsHash, st.r.IntN(256))
+			return true
+		}},
 		{"valhash-next", func(st *step, b *types.Block) bool {
 			if string(st.pre.NextValidators.Hash()) == string(st.pre.Validators.Hash()) {
 				return false
@@ -197,7 +203,10 @@ func headerMutations() []mutation {
 			b.NextValidatorsHash = st.pre.Validators.Hash()
 			return true
 		}},
-		{"consensushash-flip", func(st *step, b *types.Block) bool { b.ConsensusHash = flip(b.ConsensusHash, st.r.IntN(256)); return true }},
+		{"consensushash-flip", func(st *step, b *types.Block) bool {
+			b.ConsensusHash = flip(b.ConsensusHash, st.r.IntN(256))
+			return true
+		}},
 		{"consensushash-clear", func(st *step, b *types.Block) bool { b.ConsensusHash = nil; return true }},
 		{"time-1ns", func(st *step, b *types.Block) bool { b.Time = b.Time.Add(-1); return true }},
 		{"time+1ns", func(st *step, b *types.Block) bool { b.Time = b.Time.Add(1); return true }},
